@@ -6,8 +6,8 @@ from props import _fetch, _heap
 
 LEVEL = "proof"
 MODULE = "Phil.Props.C18"
-LEVEL_TEXT = "Lean theorems about the scope_extract model: every extracted scope of a fetch result reports the master's dotted path for itself and its parameters, whatever the sources (node_paths_of_extract, fetchRoot_extract_node_paths(_indep), node_paths_multi), declared names are accepted and every other name refused with the full path (declared_names_accepted, fetchRoot_extract_guard, setattr_error_path), inject works exactly once (inject_once_tree); detachment on the heap model: extraction writes nothing of the PHIL heap and any history of appends / item or attribute assignments on extracted values leaves it and later extractions unchanged, with the raw word list of .type=words as the stated exception (extract_frame, detached, detached_without_words, witness words_list_is_handed_out). Tied to /repo by a correspondence run comparing __phil_path__() of every node incl. every element of .multiple scopes; the oracle checks paths, the guard with values of every kind (incl. extracted scopes of another extraction), inject, and detachment by identity and by mutate-and-re-extract."
-LEVEL_NOTE = "extractT (heap) vs extractObj (pure model) equality is checked on examples, not proved. Reserved '__x__' names are Python protocol attributes and outside the 'rejects' clause."
+LEVEL_TEXT = "Lean theorems about the scope_extract model: every extracted scope of a fetch result reports the master's dotted path for itself and its parameters, whatever the sources (node_paths_of_extract, fetchRoot_extract_node_paths(_indep), node_paths_multi), declared names are accepted and every other name refused with the full path (declared_names_accepted, fetchRoot_extract_guard, setattr_error_path), inject works exactly once (inject_once_tree); detachment on the heap model: extraction writes nothing of the PHIL heap, extraction on the heap with identity erased IS the pure extraction model (extract_erase), and any history of appends / item or attribute assignments on extracted values leaves the tree and later extractions unchanged, with the raw word list of .type=words as the stated exception (extract_frame, detached, detached_pure, witness words_list_is_handed_out). Tied to /repo by a correspondence run comparing __phil_path__() of every node incl. every element of .multiple scopes; the oracle checks paths, the guard with values of every kind (incl. extracted scopes of another extraction), inject, and detachment by identity and by mutate-and-re-extract."
+LEVEL_NOTE = "Reserved '__x__' names are Python protocol attributes and outside the 'rejects' clause."
 TECHNIQUE = 'Lean 4 theorems on the parent-chain/guard model and on a value-heap model of extraction + differential correspondence + identity / mutation oracle'
 RULE = ("masters x fetch results x every extracted node (incl. each element of multiple scopes) x attribute names (declared, "
         "misspelt by one edit, injected) x in-place mutations of extracted lists and nested objects; non-trivial = the tree has "
